@@ -15,9 +15,9 @@ from vlib.core import Shard, Found
 
 PROPERTY = 'C09'
 LEVEL = 'exploration'
-RULE = ('project a -> b -> d (star imports), a -> c -> d (inheritance), a -> x <-> y (import cycle), modules e / f and package '
+RULE = ('project a -> b -> d (star imports), a -> c -> d (inheritance), a -> g -> b/c -> d (chains of length 3 below the requesting file), a -> x <-> y (import cycle), modules e / f and package '
         'pkg created later (b star-imports the initially missing f); module contents are functions of toggles; operations: '
-        'rewrite with a new mtime (harness counter via os.utime), touch (leaf and importers), create module / package, and thirteen '
+        'rewrite with a new mtime (harness counter via os.utime), touch (leaf and importers), create module / package, and sixteen '
         'requests through a.py (assist / location / lint). Exhaustive: quick = every history of length <= 3 over a reduced '
         'alphabet + every  request;edit;edit;request  history; thorough = length <= 4 over the full 27-symbol alphabet; '
         'random: Hypothesis RuleBasedStateMachine histories up to 12 / 30 steps. Non-trivial history: an edit after the edited '
@@ -38,7 +38,9 @@ def sources(state):
     y = 'import x\nyv = 2\n' + ('yextra = 3\n' if state['y_extra'] else '')
     if state['c_broken']:
         c = c + 'def broken(:\n'            # a module that temporarily does not parse (the user is typing in another buffer)
-    out = {'d': d, 'b': b, 'c': c, 'x': x, 'y': y,
+    # g puts one more unchanged module between the requesting file and b / c: a -> g -> b -> d, a -> g -> c -> d
+    g = 'from b import *\nfrom c import C as GC\ngname = 1\n'
+    out = {'d': d, 'b': b, 'c': c, 'x': x, 'y': y, 'g': g,
            'rel/__init__': 'relvalue = 0\n', 'rel/api': 'from . import helpers\n',
            'rel/helpers': 'hvalue = 1\n' + ('hextra = 2\n' if state['h_extra'] else '')}
     if state['e']:
@@ -69,7 +71,10 @@ A_SRC = ('from b import *\n'
          'from pkg import sub as psub\n'
          'psub.pvalue\n'
          'from rel.api import helpers as rh\n'
-         'rh.hvalue\n')
+         'rh.hvalue\n'
+         'import g\n'
+         'g.dn\n'
+         'g.GC().x\n')
 
 REQUESTS = {
     'assist-instance-attr': ('assist', (5, 4)),
@@ -85,12 +90,15 @@ REQUESTS = {
     'assist-cycle-member': ('assist', (15, 2)),
     'assist-package-from-import': ('assist', (17, 7)),
     'assist-relative-reexport': ('assist', (19, 5)),
+    'assist-deep-star-names': ('assist', (21, 4)),
+    'assist-deep-inherited-attr': ('assist', (22, 7)),
+    'location-deep-inherited-attr': ('location', (22, 8)),
 }
 EDITS = ['w:d_extra', 'w:d_new', 'w:b_extra', 'w:c_extra', 'w:c_broken', 'w:h_extra', 'w:x_extra', 'w:y_extra', 'touch:d', 'touch:b', 'touch:c', 'create:e', 'create:f', 'create:pkg']
 ALPHABET = EDITS + sorted(REQUESTS)
 QUICK_EDITS = ['w:d_extra', 'w:d_new', 'w:b_extra', 'w:y_extra', 'w:c_broken', 'w:h_extra', 'touch:d', 'touch:b', 'create:e', 'create:f', 'create:pkg']
 QUICK_REQUESTS = ['assist-instance-attr', 'assist-star-class-attr', 'assist-names', 'assist-created-module', 'location-inherited-attr',
-                  'assist-created-package', 'assist-late-star-names', 'assist-through-cycle', 'assist-package-from-import', 'assist-relative-reexport']
+                  'assist-created-package', 'assist-late-star-names', 'assist-through-cycle', 'assist-package-from-import', 'assist-relative-reexport', 'assist-deep-star-names', 'assist-deep-inherited-attr']
 
 
 class World(object):
